@@ -49,7 +49,7 @@ MANIFEST = {
             'loses that state again.  Every thread must obtain exactly its '
             'sequential result.  Per-thread inputs differ in value and, for '
             'the loop templates, in kind (strings / objects / pairs).',
-    'more': 'Module- and class-level containers of the library are snapshot after pre-warming and put back before every execution, so that every execution starts from the same state (a race on a lazily extended table would otherwise show in the first execution of a process only). Also: a late page (rows 40..46) of a long listing; a source with CR CR LF line ends in the compile race.',
+    'more': 'Module- and class-level containers of the library are snapshot after pre-warming and put back before every execution, so that every execution starts from the same state (a race on a lazily extended table would otherwise show in the first execution of a process only). Also: a late page (rows 40..46) of a long listing; a source with CR CR LF line ends in the compile race. Templates without source text / without a tag in the compile race.',
     'note': 'Trusted: dtmc/sched.py (baton scheduler; replay of a schedule '
             'must reproduce the same point sequence or the run is a harness '
             'fault).  Reduction, checked in every execution: frames of '
